@@ -161,7 +161,18 @@ class World:
         if sub.exc is not None:
             self.dead = True
         for mon in self.monitors:
-            mon.on_sub(self, sub)
+            try:
+                mon.on_sub(self, sub)
+            except (Violation, common.HarnessError, Hang):
+                raise
+            except Exception as e:  # noqa
+                import traceback
+                tb = traceback.extract_tb(e.__traceback__)
+                if any(fr.filename.startswith(common.REPO + "/") for fr in tb):
+                    # a query the monitor makes on a state reached by valid operations raised inside pams
+                    raise Violation("%s.api_raised" % mon.name, "a market query on a state reached by valid operations raised | %s: %s" % (
+                        type(e).__name__, str(e)[:80]))
+                raise
 
     def _round(self, op, implicit):
         sub = Sub("round", op)
